@@ -409,17 +409,17 @@ def _lazy_getters_compute(run, prog):
                             if isinstance(t, ast.Attribute) and norm(t.value) == 'self':
                                 sentinels.add(t.attr)
         for gname, g in sorted(ci.getters.items()):
-            rets = [r for r in g.body if isinstance(r, ast.Return) and isinstance(r.value, ast.Attribute) and norm(r.value.value) == 'self']
-            if len(rets) != 1 or rets[0].value.attr not in sentinels:
-                continue
-            fld = rets[0].value.attr
-            n += 1
-            run.subject('C16-R7')
             try:
                 keep_ = tuple(n_ for k_ in prog.mro(ci) for n_ in k_.methods if n_.startswith(('_update', '_clear', 'create')))
                 g2 = prep(g, class_lookup(prog, ci), keep=keep_)
             except Exception:
                 g2 = g
+            rets = [r for r in ast.walk(g2) if isinstance(r, ast.Return) and isinstance(r.value, ast.Attribute) and norm(r.value.value) == 'self']
+            if not rets or len({r.value.attr for r in rets}) != 1 or rets[0].value.attr not in sentinels:
+                continue
+            fld = rets[0].value.attr
+            n += 1
+            run.subject('C16-R7')
             good = False
             inverted = False
             for st in ast.walk(g2):
